@@ -2,6 +2,7 @@ package main
 
 import (
 	"fmt"
+	"go/token"
 	"go/types"
 	"regexp/syntax"
 	"strings"
@@ -333,6 +334,91 @@ func (c *Ctx) a3Loop(l *mapLoop) []a3Finding {
 			}
 		}
 	}
+	// (1b) state kept in an address-taken variable (captured by a closure, e.g. the less function of a later
+	// sort.Slice): go/ssa keeps it in memory, so it does not show up as a header phi
+	seenAlloc := map[*ssa.Alloc]bool{}
+	for b := range l.body {
+		for _, in := range b.Instrs {
+			st, ok := in.(*ssa.Store)
+			if !ok {
+				continue
+			}
+			al, ok := st.Addr.(*ssa.Alloc)
+			if !ok || l.body[al.Block()] || seenAlloc[al] {
+				continue
+			}
+			selfUpdate := derives(st.Val, func(v ssa.Value) bool {
+				u, ok := v.(*ssa.UnOp)
+				return ok && u.Op == token.MUL && u.X == ssa.Value(al)
+			}, false)
+			if !selfUpdate && !l.fromIter(st.Val) {
+				continue
+			}
+			seenAlloc[al] = true
+			name := al.Comment
+			pt, _ := al.Type().Underlying().(*types.Pointer)
+			if pt == nil {
+				continue
+			}
+			if isSlice(pt.Elem().Underlying()) {
+				// sorted before any other use after the loop?
+				var sortCall ssa.CallInstruction
+				var others []ssa.Instruction
+				for _, r := range *al.Referrers() {
+					ld, ok := r.(*ssa.UnOp)
+					if !ok || l.body[ld.Block()] {
+						continue
+					}
+					for _, u := range *ld.Referrers() {
+						var call ssa.CallInstruction
+						switch x := u.(type) {
+						case ssa.CallInstruction:
+							call = x
+						case *ssa.MakeInterface:
+							for _, uu := range *x.Referrers() {
+								if k, ok := uu.(ssa.CallInstruction); ok {
+									call = k
+								}
+							}
+						}
+						if call != nil {
+							n := calleeName(call)
+							if (n == "sort.Strings" || n == "sort.Slice" || n == "sort.SliceStable" || strings.HasPrefix(n, "slices.Sort")) && validLessArg(call) {
+								sortCall = call
+								continue
+							}
+						}
+						if _, isDbg := u.(*ssa.DebugRef); isDbg {
+							continue
+						}
+						others = append(others, u)
+					}
+				}
+				sorted := sortCall != nil
+				for _, o := range others {
+					if sortCall != nil && !instrDominates(sortCall, o) {
+						sorted = false
+					}
+				}
+				if sorted {
+					out = append(out, a3Finding{"", "accumulated slice " + name + " (in memory)", "sorted with a comparison of both elements before any other use after the loop", st, "ok"})
+				} else if reason, listed := a3AccumTable[fn]; listed {
+					out = append(out, a3Finding{"", "accumulated slice " + name + " (in memory)", "reviewed: " + reason, st, "ok"})
+				} else {
+					why := "elements are appended in map iteration order and the slice is used after the loop without a valid sort"
+					if sortCall == nil {
+						for _, r := range *al.Referrers() {
+							_ = r
+						}
+						why += " (a sort whose comparison function does not compare its two elements with each other leaves the order as it is)"
+					}
+					out = append(out, a3Finding{"A3.3", "accumulated slice " + name + " (in memory)", why, st, "bad"})
+				}
+			} else {
+				out = append(out, a3Finding{"A3.1", "loop-carried variable " + name + " (in memory)", "a variable that lives in memory is updated from its own value or from the current element in a range over a Go map", st, "undecided"})
+			}
+		}
+	}
 	// (4) writes to the ranged map that may add keys
 	for b := range l.body {
 		for _, in := range b.Instrs {
@@ -448,7 +534,10 @@ func (c *Ctx) sortedBeforeUse(l *mapLoop, ph *ssa.Phi, aliases map[ssa.Value]boo
 			if call, ok := r.(ssa.CallInstruction); ok {
 				n := calleeName(call)
 				if n == "sort.Strings" || n == "sort.Slice" || n == "sort.SliceStable" || strings.HasPrefix(n, "slices.Sort") {
-					sortCall = call
+					// a comparison function must compare its two arguments with each other
+					if validLessArg(call) {
+						sortCall = call
+					}
 					continue
 				}
 			}
@@ -633,4 +722,59 @@ func a3Rule(id string, min int, roots func(c *Ctx) []*ssa.Function, only ...stri
 				}
 			}
 		}}
+}
+
+// validLessArg: the sort call has no comparison function, or its comparison function's result depends on both of its
+// parameters (a less function that compares an element with itself leaves the slice in its incoming order).
+func validLessArg(call ssa.CallInstruction) bool {
+	for _, a := range call.Common().Args {
+		var fn *ssa.Function
+		switch x := a.(type) {
+		case *ssa.MakeClosure:
+			fn, _ = x.Fn.(*ssa.Function)
+		case *ssa.Function:
+			fn = x
+		}
+		if fn == nil || len(fn.Params) < 2 {
+			continue
+		}
+		for _, r := range returnsOf(fn) {
+			if len(r.Results) == 0 {
+				continue
+			}
+			d0 := dependsOn(r.Results[0], fn.Params[0])
+			d1 := dependsOn(r.Results[0], fn.Params[1])
+			if !d0 || !d1 {
+				return false
+			}
+		}
+	}
+	return true
+}
+
+// dependsOn: target is among the transitive operands of v (every operand of every instruction, index operands
+// included).
+func dependsOn(v ssa.Value, target ssa.Value) bool {
+	seen := map[ssa.Value]bool{}
+	var walk func(x ssa.Value, depth int) bool
+	walk = func(x ssa.Value, depth int) bool {
+		if x == nil || seen[x] || depth > 40 {
+			return false
+		}
+		seen[x] = true
+		if x == target {
+			return true
+		}
+		in, ok := x.(ssa.Instruction)
+		if !ok {
+			return false
+		}
+		for _, op := range in.Operands(nil) {
+			if op != nil && *op != nil && walk(*op, depth+1) {
+				return true
+			}
+		}
+		return false
+	}
+	return walk(v, 0)
 }
